@@ -320,3 +320,56 @@ Example all_options_report :
   (exists r, collapse 0 ex_posts = Ok r /\ length r = 3%nat) /\
   (exists r, collapse 1 ex_posts = Ok r /\ length r = 6%nat).
 Proof. vm_compute. repeat split; eexists; split; reflexivity. Qed.
+
+(* ---- --by-payee --subtotal, --dow --subtotal: subtotal_posts behind another subtotalling
+   handler (stage_group GByPayeeSub / GDowSub).  While every row of the first handler holds
+   one commodity the second one is subtotal_posts as above: rows in account order, one per
+   account, grand total preserved. ---- *)
+Theorem resubtotal_plain : forall l rows,
+  Forall plain_post l -> resubtotal l = Ok rows ->
+  exists rows', subtotal l = Ok rows' /\
+    map pacct rows = map pacct rows' /\ map pamt rows = map pamt rows'.
+Proof. exact RegroupProofs.resubtotal_plain. Qed.
+Print Assumptions resubtotal_plain.
+
+Theorem resubtotal_plain_sums : forall l rows,
+  Forall plain_post l -> resubtotal l = Ok rows ->
+  StronglySorted str_lt (map pacct rows) /\
+  (forall a, In a (map pacct rows) <-> exists p, In p l /\ pacct p = a) /\
+  (forall c, (sum_den rows c == sum_den l c)%Q).
+Proof. exact RegroupProofs.resubtotal_plain_sums. Qed.
+Print Assumptions resubtotal_plain_sums.
+
+(* finding: a row of the first handler that holds two commodities is a posting with a null
+   post.amount (its value is in xdata.compound_value), and subtotal_posts::operator() reads
+   post.amount: the row counts as nothing.  `A: Food 10 EUR, Cash -10 EUR, Food $5, Bank $-5`
+   under --by-payee --subtotal reports Bank $-5, Cash -10 EUR, Food 0: the grand total is
+   $-5 -10 EUR, the plain register's is 0.  The full statement "the grand total is preserved"
+   is false of the faithful model. *)
+Definition wit_resub : list post :=
+  [ex_post 0 18630 [65] [70] [69] 10; ex_post 0 18630 [65] [67] [69] (-10);
+   ex_post 3 18630 [65] [70] [36] 5;  ex_post 3 18630 [65] [66] [36] (-5)].
+
+Theorem resubtotal_sums_refuted :
+  exists l rows c, (forall p, In p l -> exists a, pamt p = VAmt a) /\
+    stage_group GByPayeeSub l = Ok rows /\ ~ (sum_den rows c == sum_den l c)%Q.
+Proof.
+  exists wit_resub. eexists. exists (Some [36]). split; [|split].
+  - intros p [<-|[<-|[<-|[<-|[]]]]]; eexists; reflexivity.
+  - vm_compute. reflexivity.
+  - intros H. vm_compute in H. discriminate.
+Qed.
+Print Assumptions resubtotal_sums_refuted.
+
+(* and when such a row arrives after another posting to the same account the report fails
+   ("Cannot add an uninitialized amount to a balance"): no sums at all *)
+Theorem resubtotal_always_reports_refuted :
+  exists l, (forall p, In p l -> exists a, pamt p = VAmt a) /\
+    (exists r, by_payee l = Ok r) /\ stage_group GByPayeeSub l = Err EOther.
+Proof.
+  exists (ex_post 6 18629 [48] [70] [36] 3 :: ex_post 6 18629 [48] [66] [36] (-3) :: wit_resub). split; [|split].
+  - intros p [<-|[<-|[<-|[<-|[<-|[<-|[]]]]]]]; eexists; reflexivity.
+  - eexists. vm_compute. reflexivity.
+  - vm_compute. reflexivity.
+Qed.
+Print Assumptions resubtotal_always_reports_refuted.
